@@ -1,6 +1,6 @@
 #!/bin/sh
 # usage: confirm_seed.sh C03 a  -- confirm a sub-agent's seeded change in a scratch worktree, then file it under /verif/seeded
-id="$1"; x="$2"; src="/tmp/mut/out/$id/$x"; wt="/tmp/seedchk/$id$x"
+id="$1"; x="$2"; root="${3:-/tmp/mut/out}"; src="$root/$id/$x"; wt="/tmp/seedchk/$id$x"
 mkdir -p /tmp/seedchk; git -C /repo worktree add -q --detach "$wt" || exit 3
 res="demo_clean=? demo_patched=? tests_patched=?"
 (cd "$wt" && PYTHONPATH="$wt/Lib" /venv/bin/python "$src/demo.py" >/dev/null 2>&1); dc=$?
